@@ -105,12 +105,19 @@ def gen_derivation(d, lang, n, nlex, tokfn=None):
     return nodes[0]
 
 
-def h_derivation(d, lang, n, nlex, with_failed):
+def h_derivation(d, lang, n, nlex, with_failed, nbest=1):
     from depccg.tree import ScoredTree
     t = gen_derivation(d, lang, n, nlex)
     if t is None:
         return True
     results = [[ScoredTree(t, -2.5)]]
+    if nbest > 1:       # an n-best list: a second derivation of the same sentence (same token objects, independent choices)
+        from engines.pysym.explore import Prefixed
+        toks = [l.children[0] for l in t.leaves]
+        t2 = gen_derivation(Prefixed(d, 'second.'), lang, n, nlex, lambda dd, i: toks[i])
+        if t2 is None:
+            return True
+        results = [[ScoredTree(t, -2.5), ScoredTree(t2, -3.5)], [ScoredTree(t, -1.0)]]
     if with_failed:
         results = [placeholder()] + results + [placeholder()]
     return render_all(lang, results)
@@ -219,6 +226,8 @@ def obligations(tier):
             nlex = min(nlex, len(LEX[lang]))
             yield Obligation('C19.derivation[%s,n=%d,lexicon=%d]' % (lang, n, nlex), 'h_derivation', dict(lang=lang, n=n, nlex=nlex, with_failed=False), cost=n * n * 10, max_seconds=600)
         yield Obligation('C19.derivation[%s,n=2,with failed sentences]' % lang, 'h_derivation', dict(lang=lang, n=2, nlex=4, with_failed=True), cost=20)
+        for n in (1, 2):
+            yield Obligation('C19.derivation[%s,n=%d,lexicon=%d,2-best list + another sentence]' % (lang, n, 4 if n == 1 else 3), 'h_derivation', dict(lang=lang, n=n, nlex=(4 if n == 1 else 3), with_failed=(n == 1), nbest=2), cost=40)
         for key in sorted(label_examples(lang)):
             yield Obligation('C19.label[%s,%s]' % (lang, '/'.join(key)), 'h_label', dict(lang=lang, key=list(key)), cost=2)
         for size in (1, 2, 3):
